@@ -340,6 +340,31 @@ func (g *gen) step() {
 			}
 			h.doTruncate(t, ht, ho)
 		})
+		// a Truncate of the current term when the node is already FOLLOWER (retry / late request), with or without a stream
+		// attached, with or without acknowledged entries: same id as planned, just below the head, or at the head
+		if st == "follower" {
+			add(5, func() {
+				ht, ho := int64(-1), int64(-1)
+				sh := g.shadowCopy()
+				switch x := r.Intn(3); {
+				case x == 0:
+					if p, ok := g.plan[term]; ok {
+						ht, ho = p[1], p[2]
+					}
+				case x == 1 && len(sh) >= 2:
+					ht, ho = sh[len(sh)-2].term, sh[len(sh)-2].off
+				case len(sh) >= 1:
+					ht, ho = sh[len(sh)-1].term, sh[len(sh)-1].off
+				}
+				n := len(h.outs)
+				h.doTruncate(term, ht, ho)
+				if len(h.outs) > n && strings.HasPrefix(h.outs[len(h.outs)-1], "head:") {
+					if ti := h.terms[term]; ti != nil {
+						ti.envOK = false
+					}
+				}
+			})
+		}
 		// open a replicate stream
 		wro := 1
 		if len(recv) == 0 && (st == "fenced" || st == "follower") {
@@ -636,6 +661,9 @@ var builtin = [][2]string{
 	{"NT:2;RO:1:2;AP:1:2:0:1:-1;SE:1;NTAP:4:1:2:1:2;BR:1;RO:2:4;AP:2:4:1:7:-1;SE:2", "2=ok=2:0:1,2:1:2/4=ok=2:0:1,4:1:7"},
 	// ... same for the leader controller: a client write accepted between NewTerm's flush and its critical section
 	{"NT:2;BL:2;CW:1;LS;NTCW:4:2;LS;BL:4;CW:3;LS", "-"},
+	// a Truncate of the same term is refused once the node follows (with a stream, without, after acks)
+	{"NT:2;TR:2:-1:-1;TR:2:-1:-1;RO:1:2;AP:1:2:0:1:-1;AP:1:2:1:2:-1;SE:1;TR:2:2:0;BR:1;TR:2:2:0;TR:2:-1:-1;RO:2:2;AP:2:2:2:3:-1;SE:2",
+		"2=ok=2:0:1,2:1:2,2:2:3"},
 	// residual hole of one-round truncation by entry id (known finding): follower [a(2);b(2);c(2);d(6)] vs
 	// leader [x(4);w(8)]: the honest request (4,0) leaves a,b,c which the leader does not have
 	{"NT:2;RO:1:2;AP:1:2:0:1:-1;AP:1:2:1:2:-1;AP:1:2:2:3:-1;SE:1;BR:1;NT:6;RO:2:6;AP:2:6:3:4:-1;SE:2;BR:2;NT:10;TR:10:4:0;RO:3:10;AP:3:10:2:13:-1;AP:3:10:3:14:-1;SE:3",
